@@ -335,6 +335,9 @@ CHECKS["C19"] = {
         {"engine": "E", "proxy": ["plain"], "tests": [
             {"run": "TestVfC19Prefetch", "quick": 4, "thorough": 80, "shards_quick": 4, "shards_thorough": 8, "timeout_thorough": 3400, "shrinktime": "30s"},
         ]},
+        {"engine": "P", "pkg": "app/router", "tests": [
+            {"run": "TestVfC19ReserveHammer", "quick": 24, "thorough": 1600, "shards_quick": 4, "shards_thorough": 8, "shrinktime": "5s", "exclusive": True},
+        ]},
     ],
     "assumptions": ["client groups are selected through UDP source addresses and an ip_marker file", "a burst hit that gets no response is re-sent once on its own before it counts (UDP loss on loopback)"],
 }
